@@ -122,6 +122,45 @@ def minFirst (lt : α → α → Bool) : List α → Option α
   | [] => none
   | x :: xs => some (xs.foldl (fun best y => if lt y best then y else best) x)
 
+/-! ### `sorted` / `list.sort` for short lists (CPython 3.12 `listobject.c`, n < 64:
+`count_run`, reverse a strictly descending run, then `binarysort` the rest) -/
+
+/-- Length of the strictly descending continuation after `prev`. -/
+def runLenDesc (lt : α → α → Bool) (prev : α) : List α → Nat
+  | [] => 0
+  | x :: xs => if lt x prev then 1 + runLenDesc lt x xs else 0
+
+/-- Length of the non-descending continuation after `prev`. -/
+def runLenAsc (lt : α → α → Bool) (prev : α) : List α → Nat
+  | [] => 0
+  | x :: xs => if lt x prev then 0 else 1 + runLenAsc lt x xs
+
+/-- `count_run`: length of the initial run and whether it is (strictly) descending. -/
+def countRun (lt : α → α → Bool) : List α → Nat × Bool
+  | [] => (0, false)
+  | [_] => (1, false)
+  | x0 :: x1 :: rest =>
+    if lt x1 x0 then (2 + runLenDesc lt x1 rest, true) else (2 + runLenAsc lt x1 rest, false)
+
+/-- The binary search of `binarysort`: insertion point of `pivot` in the sorted prefix
+`a[l..r)`, to the right of elements that are not greater. -/
+def bisectRight (lt : α → α → Bool) (a : Array α) (pivot : α) (l r : Nat) : Nat :=
+  if h : l < r ∧ r ≤ a.size then
+    let p := l + (r - l) / 2
+    if lt pivot a[p] then bisectRight lt a pivot l p else bisectRight lt a pivot (p + 1) r
+  else l
+termination_by r - l
+decreasing_by all_goals omega
+
+/-- CPython's sort for lists shorter than 64 (for longer lists timsort merges runs; under a
+strict weak order the result is the same unique stable arrangement). -/
+def pySorted (lt : α → α → Bool) (l : List α) : List α :=
+  let (n, desc) := countRun lt l
+  let pre := if desc then (l.take n).reverse else l.take n
+  (l.drop n).foldl (fun acc x =>
+    let i := bisectRight lt acc.toArray x 0 acc.length
+    acc.take i ++ x :: acc.drop i) pre
+
 /-- Pop up to `n` times, collecting what comes out (`[heappop(h) for _ in range(n)]`, stopping
 early when the heap is empty). -/
 def drain (lt : α → α → Bool) : Nat → Array α → List α
